@@ -293,7 +293,7 @@ ALT_INSTANCES = [dict(ts='no'), dict(ts='yes', K='std::string', V='unsigned long
 RULE_FN = {}
 
 
-AWKWARD = dict(ts='yes', K='unsigned long', V='capcheck_driver::awkward_value')
+AWKWARD = dict(ts='yes', K='std::string', V='capcheck_driver::awkward_value')
 
 
 def type_dispatch(repo):
